@@ -1,0 +1,22 @@
+//go:build verif
+
+package grpc
+
+import (
+	node "buf.build/gen/go/agglayer/agglayer/grpc/go/agglayer/node/v1/nodev1grpc"
+	aggkitgrpc "github.com/agglayer/aggkit/grpc"
+)
+
+// NewVerifClient builds the real AgglayerGRPCClient around caller-supplied service clients, so the
+// verification harness (C10) can capture the exact protobuf request SendCertificate builds.
+func NewVerifClient(cfg *aggkitgrpc.ClientConfig,
+	state node.NodeStateServiceClient,
+	cfgSvc node.ConfigurationServiceClient,
+	submission node.CertificateSubmissionServiceClient) *AgglayerGRPCClient {
+	return &AgglayerGRPCClient{
+		cfg:                 cfg,
+		networkStateService: state,
+		cfgService:          cfgSvc,
+		submissionService:   submission,
+	}
+}
